@@ -242,6 +242,13 @@ func (dir *ufsDir) dotu(path string, d os.FileInfo, upool Users, sysMode *syscal
 	}
 }
 
+// inRoot reports whether p, once cleaned, is the exported root or lies below it.
+func (ufs *Ufs) inRoot(p string) bool {
+	root := filepath.Clean(ufs.Root)
+	p = filepath.Clean(p)
+	return p == root || root == "/" || strings.HasPrefix(p, root+"/")
+}
+
 func (*Ufs) ConnOpened(conn *Conn) {
 	if conn.Srv.Debuglevel > 0 {
 		log.Println("connected")
@@ -279,6 +286,10 @@ func (ufs *Ufs) Attach(req *SrvReq) {
 	// clients attach are not allowed to go outside the
 	// directory represented by ufs.Root
 	fid.path = filepath.Join(ufs.Root, tc.Aname)
+	if !ufs.inRoot(fid.path) {
+		req.RespondError(Eperm)
+		return
+	}
 
 	req.Fid.Aux = fid
 	err := fid.stat()
@@ -293,7 +304,7 @@ func (ufs *Ufs) Attach(req *SrvReq) {
 
 func (*Ufs) Flush(req *SrvReq) {}
 
-func (*Ufs) Walk(req *SrvReq) {
+func (ufs *Ufs) Walk(req *SrvReq) {
 	fid := req.Fid.Aux.(*ufsFid)
 	tc := req.Tc
 
@@ -312,7 +323,19 @@ func (*Ufs) Walk(req *SrvReq) {
 	path := fid.path
 	i := 0
 	for ; i < len(tc.Wname); i++ {
-		p := path + "/" + tc.Wname[i]
+		var p string
+		switch name := tc.Wname[i]; {
+		case name == "..":
+			// the parent of the root is the root
+			p = filepath.Dir(filepath.Clean(path))
+			if !ufs.inRoot(p) {
+				p = path
+			}
+		case strings.Contains(name, "/"):
+			p = "" // no file has such a name
+		default:
+			p = path + "/" + name
+		}
 		st, err := os.Lstat(p)
 		if err != nil {
 			if i == 0 {
@@ -353,12 +376,17 @@ func (*Ufs) Open(req *SrvReq) {
 	req.RespondRopen(dir2Qid(fid.st), 0)
 }
 
-func (*Ufs) Create(req *SrvReq) {
+func (ufs *Ufs) Create(req *SrvReq) {
 	fid := req.Fid.Aux.(*ufsFid)
 	tc := req.Tc
 	err := fid.stat()
 	if err != nil {
 		req.RespondError(err)
+		return
+	}
+
+	if tc.Name == "." || tc.Name == ".." || strings.Contains(tc.Name, "/") {
+		req.RespondError(Eperm)
 		return
 	}
 
@@ -370,6 +398,15 @@ func (*Ufs) Create(req *SrvReq) {
 		e = os.Mkdir(path, os.FileMode(tc.Perm&0777))
 
 	case tc.Perm&DMSYMLINK != 0:
+		// no link may lead out of the exported tree
+		target := tc.Ext
+		if !filepath.IsAbs(target) {
+			target = filepath.Join(fid.path, target)
+		}
+		if !ufs.inRoot(target) {
+			req.RespondError(Eperm)
+			return
+		}
 		e = os.Symlink(tc.Ext, path)
 
 	case tc.Perm&DMLINK != 0:
@@ -663,6 +700,10 @@ func (u *Ufs) Wstat(req *SrvReq) {
 			fiddir, _ := path.Split(fid.path)
 			destpath = filepath.Join(fiddir, dir.Name)
 			fmt.Printf("rel  results in %s\n", destpath)
+		}
+		if !u.inRoot(destpath) {
+			req.RespondError(Eperm)
+			return
 		}
 		err := syscall.Rename(fid.path, destpath)
 		fmt.Printf("rename %s to %s gets %v\n", fid.path, destpath, err)
